@@ -52,6 +52,10 @@ def entries_of(case):
             out.append((e["name"], None, True))
         elif k == "doc":
             data = member_bytes(e)
+            if e.get("pad") and e["fmt"] == "txt":
+                # a member above 16 KiB (sizes that need a third byte in a 7z header number, several deflate blocks, several tar blocks)
+                lines = (b"line %05d of the long member " % i + data[:7] + b"\n" for i in range(e["pad"] // 40 + 1))
+                data = data + b"\n" + b"".join(lines)
             c = e.get("corrupt")
             if c == "truncate":
                 data = data[:max(1, len(data) // 3)]
@@ -274,6 +278,8 @@ def cases(draw, kind=None):
             # base names too carry non-ASCII text, incl. code points whose UTF-16 form has a zero byte next to a Latin letter's zero byte (U+4E00, U+0100)
             stem = draw(st.sampled_from(["m", "m", "m", "plan\u4e00", "a\u0100", "\u00dcn\u00ef", "\u6587\u66f8", "q\u0400z"]))
             entries.append({"k": "doc", "name": uniq(f"{d}{stem}{i}.{fmt}"), "fmt": fmt, "seed": seed0 + i})
+            if fmt == "txt" and draw(st.integers(0, 2)) == 0:
+                entries[-1]["pad"] = draw(st.sampled_from([17000, 20000, 70000]))
         elif k == "dir":
             entries.append({"k": "dir", "name": uniq(f"{d}folder{i}")})
         elif k == "empty":
